@@ -267,6 +267,10 @@ def k_reuse(ctx, seed, start="ctor"):
                 return
         f = g
         want = R.header(*(f[k] for k in FIELDS))
+        okb, before = attempt(lambda: (h.header_len, h.packet_len))            # read before pack(): the setters keep them right on their own
+        if not ctx.check("hdr.reuse", okb and before == (len(want), len(want) + f["data_len"]), "length_views_before_packing", "inplace_value" if inplace else "setters", case, observed=repr(before),
+                         expected=[len(want), len(want) + f["data_len"]], trail=trail[-12:]):
+            return
         ok, p = attempt(lambda: bytes(h.pack()))
         if not ctx.check("hdr.reuse", ok and p == want, "octets_after_setters", ("inplace_value" if inplace else "setters") + "/" + (_diff_region(p, want, f) if ok else "raised"),
                          case, expected=want, observed=p if ok else repr(p), trail=trail[-12:], round=rnd):
